@@ -519,6 +519,11 @@ impl Driver {
             }
             b'q' => self.events_unpolled = true,
             b'Q' => self.events_unpolled = false,
+            // the application drops its ConnectionEvents for good (the docs allow it): nothing is observed on it any more
+            b'Z' => {
+                self.events = None;
+                self.events_unpolled = true;
+            }
             b'u' => {
                 let w = {
                     let mut s = self.shared.lock().unwrap();
